@@ -243,6 +243,12 @@ def _shape_box(rng, cls):
             mx = int(rng.integers(2, max(3, min(10, 70 // bx) + 1)))
             if r < 0.07:
                 by, my, bx, mx = bx, mx, by, my
+        elif r < 0.30:
+            # anisotropic mesh: 1-2 mesh rows x 8-14 mesh columns (or the reverse) with unequal box sides
+            by, bx = int(rng.integers(4, 9)), int(rng.integers(2, 6))
+            my, mx = int(_pick(rng, [1, 2, 2, 3])), int(rng.integers(8, min(14, 70 // bx) + 1))
+            if r < 0.22:
+                by, my, bx, mx = bx, mx, by, my
         return (by * my, bx * mx), (by, bx)
 
     if cls == 'tiny':
@@ -272,11 +278,11 @@ def _shape_box(rng, cls):
     if cls in ('pad_row', 'pad_corner'):
         if by == 1:
             by, ny = 2, 2 * ny
-        ny = min(70, ny + int(rng.integers(1, by)))
+        ny = min(70, ny + int(_pick(rng, [1, by - 1, int(rng.integers(1, by))])))
     if cls in ('pad_col', 'pad_corner'):
         if bx == 1:
             bx, nx = 2, 2 * nx
-        nx = min(70, nx + int(rng.integers(1, bx)))
+        nx = min(70, nx + int(_pick(rng, [1, bx - 1, int(rng.integers(1, bx))])))
     if cls in ('pad_row', 'pad_col', 'pad_corner'):
         # make sure the class is what it says
         if cls in ('pad_row', 'pad_corner') and ny % by == 0:
@@ -284,13 +290,17 @@ def _shape_box(rng, cls):
         if cls in ('pad_col', 'pad_corner') and nx % bx == 0:
             nx -= 1
         return (ny, nx), (by, bx)
-    # other classes: any geometry
-    k = int(rng.integers(0, 4))
-    if k == 1 or k == 3:
-        ny = min(70, ny + int(rng.integers(0, by)))
-    if k == 2 or k == 3:
-        nx = min(70, nx + int(rng.integers(0, bx)))
-    return (ny, nx), (by, bx)
+    # other classes: any geometry; per axis: exact multiple, one pixel more, one pixel less, anything
+    def vary(n, b):
+        k = int(rng.integers(0, 5))
+        if k == 1:
+            return min(70, n + 1)
+        if k == 2 and n - 1 >= b:
+            return n - 1
+        if k >= 3:
+            return min(70, n + int(rng.integers(0, b)))
+        return n
+    return (vary(ny, by), vary(nx, bx)), (by, bx)
 
 
 def _image(rng, shape, kind):
@@ -420,7 +430,7 @@ def _exclude_p(rng):
 def _fsize(rng, force=False):
     if not force and rng.random() < 0.45:
         return 1
-    return _pick(rng, [3, 3, 5, (1, 3), (3, 1), (3, 5), (5, 3), (1, 5)])
+    return _pick(rng, [3, 3, 5, (1, 3), (3, 1), (3, 5), (5, 3), (1, 5), (5, 1), (7, 3), (3, 7)])
 
 
 def make_scene(rng, cls):
@@ -544,8 +554,38 @@ def make_scene(rng, cls):
     dt = 'float64'
     if cls == 'float32' or (cls not in ('int_dtype', 'ties', 'constant') and rng.random() < 0.06):
         dt = 'float32'
-    if cls == 'int_dtype' or (cls not in ('float32', 'ties', 'constant', 'boundary') and rng.random() < 0.03):
-        dt = _pick(rng, ['int32', 'int64', 'uint16', 'int16'])
+    if cls == 'int_dtype' or (cls not in ('float32', 'ties', 'constant', 'boundary') and rng.random() < 0.05):
+        dt = _pick(rng, ['int32', 'int64', 'uint16', 'int16', 'uint8', 'int8', 'uint32', 'uint64', 'uint16', 'uint8'])
+        if dt in ('int32', 'uint32', 'int64', 'uint64') and rng.random() < 0.3:
+            meta['int_big'] = float(_pick(rng, [2.0 ** 22, 5e6, 2.0 ** 26, 1e9, 2.0 ** 30] if dt in ('int32', 'uint32')
+                                          else [5e6, 2.0 ** 31 + 12345.0, 2.0 ** 40, 2.0 ** 52]))
+    meta['float16'] = bool(dt == 'float64' and cls not in ('ties', 'constant', 'boundary') and rng.random() < 0.02)
+
+    # ONE-SIDED BORDERS (any class): a bright or masked strip / corner patch at exactly one border or corner
+    meta['border'] = None
+    if rng.random() < 0.3 and cls not in ('boundary', 'constant'):
+        side = _pick(rng, ['left', 'right', 'bottom', 'top', 'bottom_left', 'bottom_right', 'top_left', 'top_right'])
+        wy = int(rng.integers(1, max(2, min(ny, by + 1))))
+        wx = int(rng.integers(1, max(2, min(nx, bx + 1))))
+        ys = slice(0, wy) if 'bottom' in side else (slice(ny - wy, ny) if 'top' in side else slice(0, ny))
+        xs = slice(0, wx) if 'left' in side else (slice(nx - wx, nx) if 'right' in side else slice(0, nx))
+        what = _pick(rng, ['bright', 'bright', 'masked', 'bright_masked', 'coverage'])
+        if 'bright' in what:
+            data[ys, xs] += float(_pick(rng, [5.0, 30.0, 300.0])) * sig
+        if 'masked' in what:
+            mask = np.zeros(shape, bool) if mask is None else mask.copy()
+            mask[ys, xs] = True
+        if what == 'coverage':
+            cov = np.zeros(shape, bool) if cov is None else cov.copy()
+            cov[ys, xs] = True
+        meta['border'] = side + ':' + what
+    # masks that are given but all False
+    if mask is None and rng.random() < 0.04:
+        mask = np.zeros(shape, bool)
+        meta['mask_all_false'] = True
+    if cov is None and rng.random() < 0.03:
+        cov = np.zeros(shape, bool)
+        meta['cov_all_false'] = True
 
     # DEGENERATE inputs (any class): rarely used branches
     meta['degenerate'] = None
@@ -616,18 +656,32 @@ def make_scene(rng, cls):
             data = (np.round(data / q) * q).astype(np.float32)
         fill = float(np.float32(fill))
     elif dt != 'float64':
+        info = np.iinfo(dt)
         d = np.where(np.isfinite(data), data, 0.0)
-        if dt == 'uint16' or rng.random() < 0.6:
+        if info.min == 0 or rng.random() < 0.6:
             d = np.abs(d)
-        data = np.clip(np.rint(d * (1.0 if np.abs(d).max() > 50 else 10.0)), -30000, 60000)
-        if dt in ('int16',):
-            data = np.clip(data, -30000, 30000)
+        d = d * (1.0 if np.abs(d).max() > 50 else 10.0)
+        big = meta.get('int_big')
+        if big is not None:
+            # values that need more than the 24-bit mantissa of float32
+            d = d - np.median(d) + big
+        elif info.bits == 8:
+            d = d - np.median(d) + float(_pick(rng, [40.0, 100.0, 200.0] if info.min == 0 else [0.0, 60.0, -60.0]))
+        elif rng.random() < 0.15:
+            # near the limits of the dtype
+            d = d - np.median(d) + (info.max - 40.0 if rng.random() < 0.6 or info.min == 0 else info.min + 40.0)
+        lo, hi = max(info.min, -2.0 ** 62), min(info.max, 2.0 ** 62)
+        data = np.clip(np.rint(d), lo, hi)
+        if info.bits >= 16 and big is None:
+            data = np.clip(data, max(lo, -30000 if info.bits == 16 else lo), hi)
         data = data.astype(dt)
         if fill != fill:
             fill = 0.0
         fill = float(int(fill))
-        if dt == 'uint16' and fill < 0:
+        if info.min == 0 and fill < 0:
             fill = 0.0
+        if info.bits == 8:
+            fill = float(min(fill, 99.0))
 
     spec = dict(data=data, box=(by, bx) if (by != bx or rng.random() < 0.5) else by,
                 mask=mask, cov=cov, fill=fill, p=p, fsize=fsize, thr=None, sc=sc,
@@ -663,7 +717,8 @@ def describe(spec, meta):
                 cov_repr=list(spec.get('cov_repr', PLAIN)) if spec['cov'] is not None else None,
                 fill=spec['fill'], p=spec['p'], fsize=spec['fsize'], thr_mode=meta['thr_mode'],
                 forms=spec.get('forms'), mag=[meta.get('mag'), meta.get('mag_scale'), meta.get('pedestal_ratio')],
-                degenerate=meta.get('degenerate'),
+                degenerate=meta.get('degenerate'), border=meta.get('border'), int_big=meta.get('int_big'),
+                float16=meta.get('float16'),
                 sc=spec['sc'], bkg=[spec['bkg'][0], spec['bkg'][1], spec['bkg'][2]],
                 rms=[spec['rms'][0], spec['rms'][1], spec['rms'][2]],
                 interp=[spec['interp'][0], spec['interp'][1]],
